@@ -709,7 +709,8 @@ def to_requests(data):
                  activates=[{'m': a['m'], 'a': a['a'], 'reply': a['reply'], 'subsChanged': a['subsChanged']}
                             for a in data['activates'] if not a['bare']],
                  dichecks=[{'m': d['m'], 'a': d['a'], 'client': d['client'], 'node': d['node']} for d in data['dichecks']],
-                 imports=[{'m': d['m'], 'a': d['a'], 'ok': d['ok']} for d in data['imports']]),
+                 imports=[{'m': d['m'], 'a': d['a'], 'ok': d['ok']} for d in data['imports']],
+                 trees=[{'m': c['m'], 'a': c['a'], 'inst': c['inst']} for c in data.get('dtcases', [])]),
             {'p': PID, 'k': 'datatypes', 'params': [{'cls': c['cls'], 'cfg': c['cfg'], 'inst': c['inst'], 'described': c['described'],
                                                       'probes': [p['payload'] for p in c['probes']]} for c in data.get('dtcases', [])]}]
 
@@ -831,10 +832,13 @@ def gen_datatype_cfg(rng, dt):
         which = rng.choice(['max', 'max', 'min', 'both', 'both'])
         # narrower or wider than the class says, on the grid, by quotient class
         nlo, nhi = scaled_limits(rng, scale, (klo - 5, min(klo + 3, 0)), (1, khi + 5))
+        # ... and, less often, OFF the grid (a limit the wire representation cannot express: the description states the
+        # nearest grid value)
+        off = (lambda: rng.choice([0.4, 0.26, -0.3, 0.5, -0.45])) if rng.random() < 0.15 else (lambda: 0)
         if which in ('max', 'both'):
-            over['max'] = nhi * scale
+            over['max'] = (nhi + off()) * scale
         if which in ('min', 'both'):
-            over['min'] = nlo * scale
+            over['min'] = (nlo + off()) * scale
     elif k in ('floatr', 'float'):
         lo, hi = (dt[1], dt[2]) if k == 'floatr' else (-100.0, 100.0)
         which = rng.choice(['max', 'min', 'both'])
@@ -992,28 +996,32 @@ def evaluate(ctx, res, label, case, data, model, judge, dtmodel=None):
         res.count('interface_class.' + (c['ic'][0] if c['ic'] else 'none'))
         res.count('features.%d' % len(c['features']))
     # whole-module activate probes (not a (module, accessible) pair): judged here only as data for the evidence
-    if judge['bad'] is not None:
-        what, idx, name = judge['bad']
+    seen = set()
+    for what, idx, name in judge.get('bads') or ([judge['bad']] if judge['bad'] is not None else []):
+        if what in seen:       # one report per kind of failure and node
+            continue
+        seen.add(what)
         detail = None
-        if what in ('undescribed-reachable', 'flag-not-honoured', 'datainfo-not-honoured', 'constant-not-read', 'command-datainfo-not-honoured', 'other'):
+        kind = what.split(':')[0]
+        if kind in ('undescribed-reachable', 'flag-not-honoured', 'datainfo-not-honoured', 'constant-not-read', 'command-datainfo-not-honoured', 'other'):
             probes = [s for s in rec['steps'] if s['req'][0] != 'read' or not s['req'][2]]
             st = rec['steps'][idx] if idx < len(rec['steps']) else None
             detail = None if st is None else {'req': st['req'], 'reply': st['obs']['reply'], 'calls': st['obs']['calls'],
                                               'pyclass': st.get('pyclass')}
-        elif what == 'undescribed-subscribed':
+        elif kind == 'undescribed-subscribed':
             acts = [a for a in data['activates'] if not a['bare']]
             detail = acts[idx] if idx < len(acts) else None
-        elif what == 'report-not-strict-json':
+        elif kind == 'report-not-strict-json':
             text = data['strict']
             pos = min([text.find(t) for t in ('NaN', 'Infinity') if t in text] or [0]) if text else 0
             detail = 'the report cannot be serialised' if text is None else text[max(0, pos - 120):pos + 40]
-        elif what == 'class-props':
+        elif kind == 'class-props':
             detail = {'described': next((c for c in data['classes'] if c['m'] == name), None),
                       'class chain': next((m.get('mro') for m in rec['node']['modules'] if m['name'] == name), None),
                       'configuration': next(((m.get('init') or {}).get('cfg') for m in rec['node']['modules'] if m['name'] == name), None)}
-        elif what == 'datainfo-disagrees':
+        elif kind == 'datainfo-disagrees':
             detail = data['dichecks'][idx]
-        elif what == 'emitted-not-importable':
+        elif kind == 'emitted-not-importable':
             detail = data['imports'][idx]
         res.violations.append({'sig': 'C06:%s' % what, 'what': f'{label}: {what} at {name}: {json.dumps(detail, default=str)[:400]}',
                                'case': case, 'detail': detail})
@@ -1061,7 +1069,9 @@ def run(ctx):
     # probed only with requests the node must refuse before any driver is involved, and only when phase 1 found the tree
     # honouring its reports — a tree that already executes what it should refuse is not let loose on real drivers
     judge_items(items)
-    if res.violations:
+    from check import load_known
+    recorded = {f['signature'] for f in load_known(PID).get('findings', [])}
+    if any(v['sig'] not in recorded for v in res.violations):      # (a recorded finding does not keep the real drivers away)
         res.notes.append('shipped configurations NOT run: the generated nodes already show violations')
         return res
     nodes, skipped = shipped_nodes(ctx)
